@@ -3,6 +3,7 @@
   All theorems quantify over every address list (any length, any order, any multiplicity).
 -/
 import Corerad.Spec.C13
+import Corerad.Model.RA
 import Corerad.Lemmas.ListUtil
 
 namespace Corerad.Props.C13
@@ -96,13 +97,25 @@ theorem holds_model (bits : Nat) (as : List SysIP) :
     · right; exact (mem_iff bits as _).mpr ⟨a, ha, he, rfl⟩
     · left; simpa using he
 
-/-- Every expanded prefix carries the stanza's flags and lifetimes: the option list is a `map`
-    of one constructor over the expanded prefixes (transcribing `(*Prefix).apply`). -/
-theorem uniform_stanza {β : Type} (mk : Prefix → β) (bits : Nat) (as : List SysIP) :
-    ∀ o ∈ (currentPrefixes bits as).map mk, ∃ p ∈ currentPrefixes bits as, o = mk p := by
-  intro o ho
-  obtain ⟨p, hp, rfl⟩ := List.mem_map.mp ho
-  exact ⟨p, hp, rfl⟩
+/-- Every option the wildcard stanza yields is a Prefix Information option for one of the
+    expanded prefixes, with the stanza's on-link and autonomous flags and the stanza's (possibly
+    counted-down) valid and preferred lifetimes — and every expanded prefix gets one, in order.
+    Stated of the model's `Plugin.apply` (the transcription of `(*Prefix).Apply`/`apply`, tied to
+    the source by the differential runs of this check). -/
+theorem uniform_stanza (sys : SysState) (p : Prefix) (onLink autonomous : Bool) (valid pref : Dur)
+    (dep : Bool) (as : List SysIP) (hs : sys.addrs = some as) :
+    Plugin.apply sys (.pfx true p onLink autonomous valid pref dep) =
+      some ((currentPrefixes p.bits as).map fun q =>
+        Opt.pi q.addr q.bits onLink autonomous
+          (prefixLifetimes dep sys.epoch valid pref sys.now).1
+          (prefixLifetimes dep sys.epoch valid pref sys.now).2) := by
+  simp [Plugin.apply, hs]
+
+/-- …and a failing address source fails the stanza (no option is invented). -/
+theorem wildcard_fails_with_source (sys : SysState) (p : Prefix) (onLink autonomous : Bool)
+    (valid pref : Dur) (dep : Bool) (hs : sys.addrs = none) :
+    Plugin.apply sys (.pfx true p onLink autonomous valid pref dep) = none := by
+  simp [Plugin.apply, hs]
 
 /-- Non-vacuity: two hosts of one /64 (one listed twice), a temporary address in another /64
     and a link-local address expand to exactly one prefix. -/
